@@ -24,7 +24,7 @@ claimed = {
                   "extended-key serialisation layout / checksum / parse-back, WIF export/import round trip.",
              ref="6/C14", note=NOTE + "Outside: make_wallet, BIP39, scrypt, address listing; Base58 is bypassed here (C15). BIP32's 'IL >= n or child == 0 is invalid' rule is assumed away (probability < 2^-127). "),
  "C08": dict(text="Bounded model checking (Int mode: mathematical integers with explicit wrap-around, quotient variables, products abstracted to shared bounded variables) of the 5x52 field arithmetic against the ring Z/p: "
-                  "Mul and Sqr for all operands of magnitude <= 8, Normalize for all limbs < 2^60 (canonical output, value preserved mod p), SetAdd / MulInt / Negate within their magnitude contracts, SetB32/GetB32 round trip and value; point serialisation (GetPublicKey, XY.Bytes) of coordinates in the non-normalised form SetXYZ leaves: canonical X/Y bytes and the parity of the canonical Y.",
+                  "Mul and Sqr for all operands of magnitude <= 8, Normalize for all limbs < 2^60 (canonical output, value preserved mod p), SetAdd / MulInt / Negate within their magnitude contracts, SetB32/GetB32 round trip and value; point serialisation (GetPublicKey, XY.Bytes) of coordinates in the non-normalised form SetXYZ leaves: canonical X/Y bytes and the parity of the canonical Y; the contracts between the group layer and the field layer (Double / Add / AddXY / affine helpers: operand magnitudes of Mul, Sqr, Negate, normalisation before Equals / IsZero / IsOdd / GetB32, output magnitudes inductive).",
              ref="6/C08", note=NOTE + "Most of these obligations are discharged by the engine's canonical linear forms and interval arithmetic before a query is needed (reported per assertion in the evidence as folded); the group law, scalar code and tables (L1-L3) are not yet covered. "),
  "C13": dict(text="Bounded model checking (Int mode) of the wallet's payment arithmetic: parse_spend + make_signed_tx on requests of one or two destinations with amount strings of several shapes (0.dddddddd, integers of 1..3 (thorough 8, 12) digits, D.d, DD.dddd, 'D.', '.dddddddd', 12+8 digits; all digits arbitrary), arbitrary fee below 1 BTC, -f and -useallinputs, two owned outputs of arbitrary value: "
                   "what is written pays every destination exactly the requested amount (the first minus the fee under -f, never wrapping), requests above all funds are refused, change = inputs - payment - fee to the change address, inputs are owned and only as many as needed; otherwise the tool exits before writing; the -msg OP_RETURN output for message lengths of every push class; sign_tx on one input of six output kinds under two wallet configurations: the digest handed to the signer is the right algorithm's (legacy / BIP143 / BIP341) for this input, script code and amount, the key is the wallet's, the signature lands where the output type requires, nothing but scriptSig / witness changes, foreign outputs are left unsigned (native replays run the real signers and the script interpreter).",
